@@ -1001,6 +1001,16 @@ func (g *goLayouts) readSummary(fn *types.Func) *readHelper {
 	if !hasBuf {
 		return s
 	}
+	// an integer assembled from single bytes by shifting: the width is that of the result
+	if g.movesBytesByHand(fd) && fd.Type.Results != nil && len(fd.Type.Results.List) > 0 {
+		if b, ok := g.info.TypeOf(fd.Type.Results.List[0].Type).Underlying().(*types.Basic); ok {
+			if k := map[types.BasicKind]string{types.Uint16: "u16", types.Uint32: "u32", types.Uint64: "u64"}[b.Kind()]; k != "" {
+				s.toks = []Tok{{Kind: k, Field: "$v"}}
+				s.ok = true
+				return s
+			}
+		}
+	}
 	d := &decCtx{g: g}
 	d.walkBlock(fd.Body.List)
 	toks := d.toks
@@ -1027,6 +1037,7 @@ type decCtx struct {
 	g     *goLayouts
 	toks  []Tok
 	binds map[types.Object]int // local variable -> index of the token whose value it holds
+	direct map[int]string      // token index -> result field it was decoded into directly
 }
 
 func (d *decCtx) walkBlock(stmts []ast.Stmt) {
@@ -1042,6 +1053,15 @@ func (d *decCtx) bind(lhs ast.Expr, idx int) {
 	if id, ok := lhs.(*ast.Ident); ok && id.Name != "_" {
 		if obj := d.g.info.ObjectOf(id); obj != nil {
 			d.binds[obj] = idx
+		}
+	}
+	// decoded straight into a field of the result: x.Field, offset, err = getUint64(buf, offset)
+	if sel, ok := lhs.(*ast.SelectorExpr); ok {
+		if s, ok := d.g.info.Selections[sel]; ok && s.Kind() == types.FieldVal {
+			if d.direct == nil {
+				d.direct = map[int]string{}
+			}
+			d.direct[idx] = sel.Sel.Name
 		}
 	}
 }
@@ -1094,10 +1114,11 @@ func (d *decCtx) walkStmt(st ast.Stmt) {
 		} else {
 			body = x.(*ast.RangeStmt).Body
 		}
-		saved, sb := d.toks, d.binds
-		d.toks, d.binds = nil, map[types.Object]int{}
+		saved, sb, sd := d.toks, d.binds, d.direct
+		d.toks, d.binds, d.direct = nil, map[types.Object]int{}, nil
 		d.walkBlock(body.List)
 		inner := d.toks
+		d.direct = sd
 		// the collection being filled: m[k] = v / s = append(s, ...)
 		var coll types.Object
 		ast.Inspect(body, func(n ast.Node) bool {
@@ -1206,6 +1227,9 @@ func (g *goLayouts) decoderLayout(fd *ast.FuncDecl) *decResult {
 	res := &decResult{fn: fd.Name.Name, pos: fd.Pos()}
 	// name tokens from the composite literal / field assignments they flow to
 	names := map[int]string{}
+	for idx, f := range d.direct {
+		names[idx] = snake(f)
+	}
 	use := func(field string, val ast.Expr) {
 		val = stripParenConv(g, val)
 		// append([]byte{}, data...) / copies
@@ -1257,6 +1281,12 @@ func (g *goLayouts) decoderLayout(fd *ast.FuncDecl) *decResult {
 							if sel, ok := a2.Lhs[0].(*ast.SelectorExpr); ok {
 								found := false
 								ast.Inspect(a2.Rhs[0], func(k ast.Node) bool {
+									// a bounded re-slice of the tail (rest[:n]) is a length-delimited field, not the tail
+									if se, ok := k.(*ast.SliceExpr); ok && se.High != nil {
+										if i2, ok := se.X.(*ast.Ident); ok && g.info.ObjectOf(i2) == obj {
+											return false
+										}
+									}
 									if i2, ok := k.(*ast.Ident); ok && g.info.ObjectOf(i2) == obj {
 										found = true
 									}
@@ -1662,4 +1692,173 @@ func (g *goLayouts) isOpenTail(e ast.Expr) bool {
 	}
 	se, ok := stripParenConv(g, rs.Results[0]).(*ast.SliceExpr)
 	return ok && se.High == nil && isByteSliceType(g.info.TypeOf(se.X))
+}
+
+// Blindness of the layout extractor. The extractor reads the encoders and decoders in the forms this code base uses (put*/get*
+// helpers with a running offset, binary.LittleEndian on a window of the buffer, cursor structs, helper functions summarised
+// recursively). When a function moves its bytes through something the extractor has no model of - an append-style encoder
+// (binary.LittleEndian.AppendUint16, append(buf, s...)), a generic helper, a helper whose own reads or writes could not be
+// summarised (hand-assembled integers) - the extracted layout is an artefact of the extractor, not of the code, and a
+// disagreement with the table is not evidence of anything: the layout rule then says "not judged" for that function.
+// A function written in the modelled forms is never blind, so single edits of today's encoders and decoders (a width, an
+// order, a missing field) stay decided.
+
+// decoderBlind names a construct in fd (or an unexported helper it calls, two levels) that reads the record in a way
+// the extractor does not model; "" if there is none.
+func (g *goLayouts) decoderBlind(fd *ast.FuncDecl) string {
+	return g.blindIn(fd, 2, map[*ast.FuncDecl]bool{}, false)
+}
+
+func (g *goLayouts) encoderBlind(fd *ast.FuncDecl) string {
+	return g.blindIn(fd, 2, map[*ast.FuncDecl]bool{}, true)
+}
+
+func (g *goLayouts) blindIn(fd *ast.FuncDecl, depth int, seen map[*ast.FuncDecl]bool, enc bool) string {
+	if fd == nil || fd.Body == nil || seen[fd] {
+		return ""
+	}
+	seen[fd] = true
+	why := ""
+	takesBytes := func(fn *types.Func) bool {
+		sig, ok := fn.Type().(*types.Signature)
+		if !ok {
+			return false
+		}
+		for i := 0; i < sig.Params().Len(); i++ {
+			if isByteSliceType(sig.Params().At(i).Type()) {
+				return true
+			}
+		}
+		if enc {
+			for i := 0; i < sig.Results().Len(); i++ {
+				if isByteSliceType(sig.Results().At(i).Type()) {
+					return true
+				}
+			}
+		}
+		if rv := sig.Recv(); rv != nil {
+			if _, st := structOf(rv.Type()); st != nil {
+				for i := 0; i < st.NumFields(); i++ {
+					if isByteSliceType(st.Field(i).Type()) && st.Field(i).Name() != "Data" && !st.Field(i).Exported() {
+						return true
+					}
+				}
+			}
+		}
+		return false
+	}
+	ast.Inspect(fd.Body, func(n ast.Node) bool {
+		if why != "" {
+			return false
+		}
+		ce, ok := n.(*ast.CallExpr)
+		if !ok {
+			return true
+		}
+		fn := g.calleeOf(ce)
+		if fn == nil {
+			// a call of an instantiated generic function of the package
+			var id *ast.Ident
+			switch f := ce.Fun.(type) {
+			case *ast.Ident:
+				id = f
+			case *ast.IndexExpr:
+				id, _ = f.X.(*ast.Ident)
+			}
+			if id != nil {
+				if tf, ok := g.info.Uses[id].(*types.Func); ok && tf.Pkg() != nil && tf.Pkg().Path() == g.pkg {
+					if sig, ok := tf.Type().(*types.Signature); ok && sig.TypeParams() != nil && sig.TypeParams().Len() > 0 {
+						why = "generic helper " + tf.Name()
+					}
+				}
+			}
+			return true
+		}
+		if fn.Pkg() != nil && fn.Pkg().Path() == "encoding/binary" && strings.HasPrefix(fn.Name(), "Append") {
+			why = "append-style encoding (binary." + fn.Name() + ")"
+			return false
+		}
+		if fn.Pkg() == nil || fn.Pkg().Path() != g.pkg {
+			return true
+		}
+		if sig, ok := fn.Type().(*types.Signature); ok && sig.TypeParams() != nil && sig.TypeParams().Len() > 0 {
+			why = "generic helper " + fn.Name()
+			return false
+		}
+		hd := g.decls[fn]
+		if hd == nil || hd.Body == nil || !takesBytes(fn) {
+			return true
+		}
+		if enc {
+			if s := g.emitSummary(fn); s != nil && s.ok && !g.movesBytesByHand(hd) {
+				return true
+			}
+		} else {
+			if s := g.readSummary(fn); s != nil && s.ok {
+				return true
+			}
+		}
+		// not summarised: either it contains modelled statements itself (then the extractor walks into it where it can)
+		// or it moves bytes by hand
+		if fn.Exported() {
+			return true
+		}
+		if depth > 0 {
+			if w := g.blindIn(hd, depth-1, seen, enc); w != "" {
+				why = w
+				return false
+			}
+		}
+		if g.movesBytesByHand(hd) {
+			why = "helper " + fn.Name() + " assembles or scatters bytes by hand"
+			return false
+		}
+		return true
+	})
+	if why == "" && g.movesBytesByHand(fd) {
+		why = fd.Name.Name + " assembles or scatters bytes by hand"
+	}
+	return why
+}
+
+// movesBytesByHand: the function shifts single bytes of a byte slice into an integer (x |= uint64(b[i]) << 8) or stores
+// single bytes obtained by shifting (b[i] = byte(x >> 8)).
+func (g *goLayouts) movesBytesByHand(fd *ast.FuncDecl) bool {
+	found := false
+	hasByteIndex := func(e ast.Node) bool {
+		f := false
+		ast.Inspect(e, func(m ast.Node) bool {
+			if ix, ok := m.(*ast.IndexExpr); ok && isByteSliceType(g.info.TypeOf(ix.X)) {
+				f = true
+			}
+			return true
+		})
+		return f
+	}
+	hasShift := func(e ast.Node) bool {
+		f := false
+		ast.Inspect(e, func(m ast.Node) bool {
+			if be, ok := m.(*ast.BinaryExpr); ok && (be.Op == token.SHL || be.Op == token.SHR) {
+				f = true
+			}
+			return true
+		})
+		return f
+	}
+	ast.Inspect(fd.Body, func(n ast.Node) bool {
+		switch x := n.(type) {
+		case *ast.BinaryExpr:
+			if x.Op == token.SHL && hasByteIndex(x.X) {
+				found = true
+			}
+		case *ast.AssignStmt:
+			for i, l := range x.Lhs {
+				if ix, ok := l.(*ast.IndexExpr); ok && isByteSliceType(g.info.TypeOf(ix.X)) && i < len(x.Rhs) && hasShift(x.Rhs[i]) {
+					found = true
+				}
+			}
+		}
+		return true
+	})
+	return found
 }
